@@ -168,6 +168,27 @@ def to_number(value: JSValue) -> Union[int, float]:
     return float("nan")
 
 
+def js_pow(base: Union[int, float], exponent: Union[int, float]) -> float:
+    """Number::exponentiate on IEEE doubles (never big-integer arithmetic, never raises)."""
+    base = float(base)
+    exponent = float(exponent)
+    if math.isnan(exponent):
+        return float("nan")
+    if exponent == 0:
+        return 1.0
+    if math.isinf(exponent) and abs(base) == 1:
+        return float("nan")
+    odd = not math.isinf(exponent) and math.fmod(exponent, 2) in (1.0, -1.0)
+    if base == 0 and exponent < 0:
+        return float("-inf") if odd and math.copysign(1, base) < 0 else float("inf")
+    try:
+        return math.pow(base, exponent)
+    except OverflowError:
+        return float("-inf") if base < 0 and odd else float("inf")
+    except ValueError:
+        return float("nan")  # negative base, fractional exponent
+
+
 def to_string(value: JSValue) -> str:
     """Convert a JavaScript value to string."""
     if value is UNDEFINED:
